@@ -313,7 +313,7 @@ func (x *Exec) exec1(st *State, fr *Frame, in ssa.Instruction) {
 		vv := x.toTerm(st, x.valueOf(st, fr, in.Value), in.Value.Type())
 		x.mapUpdate(st, fr, m, kv.S, vv.S, in)
 	case *ssa.MakeMap:
-		r := x.allocRef(st)
+		r := x.allocRefT(st, in.Type())
 		mt := in.Type().Underlying().(*types.Map)
 		x.initMap(st, mt, r)
 		fr.regs[in] = Term{r, in.Type()}
@@ -322,7 +322,7 @@ func (x *Exec) exec1(st *State, fr *Frame, in ssa.Instruction) {
 		cp := x.valueOf(st, fr, in.Cap).(Term)
 		x.safety(st, fr, "makeslice", in, 0, and(app("<=", "0", ln.S), app("<=", ln.S, cp.S)), "make length and capacity are non-negative")
 		et := in.Type().Underlying().(*types.Slice).Elem()
-		r := x.allocRef(st)
+		r := x.allocRefT(st, in.Type())
 		name, srt := x.arrName(et)
 		arr := x.getArr(st, name, srt)
 		x.setArr(st, name, srt, app("store", arr, r, x.reg.zero(types.NewArray(et, 0))))
@@ -362,7 +362,16 @@ func (x *Exec) exec1(st *State, fr *Frame, in ssa.Instruction) {
 			ks := x.sortOf(u.Key())
 			seen := x.newCell("seen", nil)
 			st.cells[seen] = Term{"((as const (Array " + ks + " Bool)) false)", nil}
-			fr.regs[in] = &RangeIter{Map: xv, Seen: seen, MapT: u}
+			it := &RangeIter{Map: xv, Seen: seen, MapT: u}
+			if vs := x.sortOf(u.Elem()); vs == "Int" || vs == "Real" {
+				m := xv.(Term).S
+				it.SeenSum = x.newCell("seensum", u.Elem())
+				st.cells[it.SeenSum] = Term{x.reg.zero(u.Elem()), u.Elem()}
+				it.StartSum = x.define(st, "msum0", vs, x.mapSum(st, u, m))
+				it.StartDom = x.define(st, "dom0", "(Array "+ks+" Bool)", x.mapDom(st, u, m))
+				it.StartVal = x.define(st, "val0", "(Array "+ks+" "+vs+")", x.mapVal(st, u, m))
+			}
+			fr.regs[in] = it
 		default:
 			bail("range over %s", in.X.Type())
 		}
@@ -382,14 +391,14 @@ func (x *Exec) doAlloc(st *State, fr *Frame, in *ssa.Alloc) Val {
 	switch u := T.Underlying().(type) {
 	case *types.Struct:
 		if in.Heap {
-			r := x.allocRef(st)
+			r := x.allocRefT(st, in.Type())
 			name, srt := x.heapName(T)
 			arr := x.getArr(st, name, srt)
 			x.setArr(st, name, srt, app("store", arr, r, x.reg.zero(T)))
 			return &Place{Kind: pkHeap, Ref: r, Base: T, T: T}
 		}
 	case *types.Array:
-		r := x.allocRef(st)
+		r := x.allocRefT(st, T)
 		name, srt := x.arrName(u.Elem())
 		arr := x.getArr(st, name, srt)
 		x.setArr(st, name, srt, app("store", arr, r, x.reg.zero(T)))
@@ -915,8 +924,30 @@ func (x *Exec) next(st *State, fr *Frame, in *ssa.Next) Val {
 	x.assume(st, implies(not(ok), "(forall (("+q+" "+ks+")) (=> (select "+dom+" "+q+") (select "+seen+" "+q+")))"))
 	x.assumeTypeInv(st, k, mt.Key())
 	v := x.typed(st, x.define(st, "rng_v", x.sortOf(mt.Elem()), app("select", x.mapVal(st, mt, m), k)), mt.Elem())
+	// a successful step proves the map non-empty
+	x.assume(st, implies(ok, app(">=", x.mapCard(st, m), "1")))
 	// update seen only when ok (harmless otherwise)
 	st.cells[it.Seen] = Term{x.define(st, "seen", "(Array "+ks+" Bool)", ite(ok, app("store", seen, k, "true"), seen)), nil}
+	if it.SeenSum != nil {
+		// ghost partial sum; a complete iteration over an unmodified map has visited every value
+		// once, so the partial sum then equals the map's total (finite-sum axiom, trusted)
+		vs := x.sortOf(mt.Elem())
+		cur := st.cells[it.SeenSum].(Term).S
+		unchanged := and(eq(x.mapDom(st, mt, m), it.StartDom), eq(x.mapVal(st, mt, m), it.StartVal))
+		x.assume(st, implies(and(not(ok), unchanged), eq(cur, it.StartSum)))
+		nxt := x.define(st, "seensum", vs, ite(ok, app("+", cur, v.(Term).S), cur))
+		st.cells[it.SeenSum] = Term{nxt, mt.Elem()}
+		// partial sums of non-negative values are bounded by the total
+		qk := x.fresh("k")
+		zero := x.reg.zero(mt.Elem())
+		guard := app("select", it.StartDom, qk)
+		if b, ok := mt.Key().Underlying().(*types.Basic); ok && b.Info()&types.IsString != 0 {
+			guard = and(app("<=", "0", qk), guard) // strings are the non-negative integers
+		}
+		nonneg := "(forall ((" + qk + " " + ks + ")) (=> " + guard + " (>= (select " + it.StartVal + " " + qk + ") " + zero + ")))"
+		x.assume(st, implies(and(unchanged, nonneg), and(app("<=", zero, cur), app("<=", cur, nxt), app("<=", nxt, it.StartSum))))
+		x.used("finite sums: a completed range over an unmodified numeric map has summed exactly msum(map)")
+	}
 	return Tuple{Term{ok, boolT}, Term{k, mt.Key()}, v}
 }
 
